@@ -1,27 +1,673 @@
+// Driver for C25 (integer and decimal arithmetic is exact or reports out-of-range): runs `SELECT a op b` /
+// `SELECT -a` through the real engine for operands that are table columns of every integer width and
+// signedness, DECIMAL columns, literals and CASTs; records (operator, evaluated operands, observed result) for
+// the Coq model, and evaluates the property predicate with an independent math/big reference.
 package main
 
 import (
 	"fmt"
-	"os"
+	"math/big"
+	"strings"
 
+	"github.com/cockroachdb/apd/v3"
+
+	"verifharness/lib"
 	"verifharness/lib/eng"
 )
 
-func main() {
-	e := eng.New("db")
-	s := e.Session()
-	s.MustExec("CREATE TABLE t (id int primary key, i8 tinyint, u8 tinyint unsigned, i16 smallint, u16 smallint unsigned, i24 mediumint, u24 mediumint unsigned, i32 int, u32 int unsigned, i64 bigint, u64 bigint unsigned, d decimal(20,5))")
-	s.MustExec("INSERT INTO t VALUES (1, 127, 255, 32767, 65535, 8388607, 16777215, 2147483647, 4294967295, 9223372036854775807, 18446744073709551615, 123.45600)")
-	for _, q := range os.Args[1:] {
-		r := s.Query(q)
-		ty := ""
-		if len(r.Schema) > 0 {
-			ty = r.Schema[0].Type.String()
-		}
-		var gt string
-		if len(r.Rows) > 0 && len(r.Rows[0]) > 0 {
-			gt = fmt.Sprintf("%T", r.Rows[0][0])
-		}
-		fmt.Printf("%-50s => %v  type=%s go=%s err=%v kind=%s\n", q, eng.Rows(r.Rows), ty, gt, r.Err, eng.ErrKind(r.Err))
+type operandSpec struct {
+	Kind string `json:"kind"` // col | lit | cast | null
+	Type string `json:"type"` // col: i8..u64 or decimal(p,s); cast: signed | unsigned | decimal(p,s)
+	Text string `json:"text"` // the value as decimal text
+}
+
+type caseT struct {
+	Op string      `json:"op"` // + - * DIV % / neg
+	L  operandSpec `json:"l"`
+	R  operandSpec `json:"r"`
+}
+
+var opNames = map[string]string{"+": "plus", "-": "minus", "*": "mult", "DIV": "intdiv", "%": "mod", "/": "div", "neg": "neg"}
+var opCoq = map[string]string{"+": "Plus", "-": "Minus", "*": "Mult", "DIV": "IntDiv", "%": "Mod", "/": "Div", "neg": "Neg"}
+var ops = []string{"+", "-", "*", "DIV", "%", "/", "neg"}
+
+type intType struct {
+	Name, SQL, Coq string
+	Min, Max       *big.Int
+}
+
+func bi(s string) *big.Int {
+	z, ok := new(big.Int).SetString(s, 10)
+	if !ok {
+		panic("bad int " + s)
 	}
+	return z
+}
+
+var intTypes = []intType{
+	{"i8", "tinyint", "I8", bi("-128"), bi("127")},
+	{"u8", "tinyint unsigned", "U8", bi("0"), bi("255")},
+	{"i16", "smallint", "I16", bi("-32768"), bi("32767")},
+	{"u16", "smallint unsigned", "U16", bi("0"), bi("65535")},
+	{"i24", "mediumint", "I24", bi("-8388608"), bi("8388607")},
+	{"u24", "mediumint unsigned", "U24", bi("0"), bi("16777215")},
+	{"i32", "int", "I32", bi("-2147483648"), bi("2147483647")},
+	{"u32", "int unsigned", "U32", bi("0"), bi("4294967295")},
+	{"i64", "bigint", "I64", bi("-9223372036854775808"), bi("9223372036854775807")},
+	{"u64", "bigint unsigned", "U64", bi("0"), bi("18446744073709551615")},
+}
+
+func intTypeByName(n string) *intType {
+	for i := range intTypes {
+		if intTypes[i].Name == n {
+			return &intTypes[i]
+		}
+	}
+	return nil
+}
+func intTypeBySQL(n string) *intType {
+	for i := range intTypes {
+		if intTypes[i].SQL == n {
+			return &intTypes[i]
+		}
+	}
+	return nil
+}
+
+// boundary magnitudes: 0, 1, 2^7, 2^8, 2^15, 2^16, 2^23, 2^24, 2^31, 2^32, 2^62, 2^63, 2^64, each +-1, both signs
+var boundaries []*big.Int
+
+func init() {
+	seen := map[string]bool{}
+	add := func(z *big.Int) {
+		if !seen[z.String()] {
+			seen[z.String()] = true
+			boundaries = append(boundaries, new(big.Int).Set(z))
+		}
+	}
+	for _, e := range []uint{0, 1, 7, 8, 15, 16, 23, 24, 31, 32, 62, 63, 64} {
+		p := new(big.Int).Lsh(big.NewInt(1), e)
+		for d := int64(-1); d <= 1; d++ {
+			v := new(big.Int).Add(p, big.NewInt(d))
+			add(v)
+			add(new(big.Int).Neg(v))
+		}
+	}
+	add(big.NewInt(0))
+	for _, s := range []string{"3", "10", "4611686018427387904", "3037000500", "6074001000", "4294967297", "100000000000000000000"} {
+		add(bi(s))
+		add(new(big.Int).Neg(bi(s)))
+	}
+}
+
+func inRange(t *intType, z *big.Int) bool { return z.Cmp(t.Min) >= 0 && z.Cmp(t.Max) <= 0 }
+
+func randBig(r *lib.RNG, lo, hi *big.Int) *big.Int {
+	span := new(big.Int).Sub(hi, lo)
+	span.Add(span, big.NewInt(1))
+	x := new(big.Int).SetUint64(r.Uint64())
+	x.Lsh(x, 64)
+	x.Or(x, new(big.Int).SetUint64(r.Uint64()))
+	x.Mod(x, span)
+	return x.Add(x, lo)
+}
+
+func genIntValue(r *lib.RNG, t *intType) *big.Int {
+	switch r.Intn(10) {
+	case 0, 1, 2, 3, 4: // boundary of this type or a global boundary that fits
+		for k := 0; k < 20; k++ {
+			b := lib.Pick(r, boundaries)
+			if inRange(t, b) {
+				return b
+			}
+		}
+		return new(big.Int).Set(t.Max)
+	case 5: // near the type's own limits
+		d := big.NewInt(int64(r.Intn(3)))
+		if r.Bool() {
+			return new(big.Int).Sub(t.Max, d)
+		}
+		return new(big.Int).Add(t.Min, d)
+	case 6, 7: // small
+		v := big.NewInt(int64(r.Intn(21) - 10))
+		if inRange(t, v) {
+			return v
+		}
+		return big.NewInt(int64(r.Intn(10)))
+	default:
+		return randBig(r, t.Min, t.Max)
+	}
+}
+
+var decTypes = [][2]int{{5, 0}, {10, 2}, {20, 5}, {38, 10}, {65, 30}, {18, 9}, {30, 28}}
+
+// randDecText returns a decimal text with at most `whole` integer digits and exactly `scale` fraction digits.
+func randDecText(r *lib.RNG, whole, scale int) string {
+	var sb strings.Builder
+	if r.Chance(2, 5) {
+		sb.WriteByte('-')
+	}
+	w := 0
+	if whole > 0 {
+		w = r.Range(0, whole)
+		if r.Chance(1, 2) && w > 3 {
+			w = r.Range(0, 3)
+		}
+	}
+	if w == 0 {
+		sb.WriteByte('0')
+	}
+	for i := 0; i < w; i++ {
+		d := r.Intn(10)
+		if i == 0 && d == 0 {
+			d = 1 + r.Intn(9)
+		}
+		if r.Chance(1, 6) {
+			d = 9
+		}
+		sb.WriteByte(byte('0' + d))
+	}
+	if scale > 0 {
+		sb.WriteByte('.')
+		mode := r.Intn(4)
+		for i := 0; i < scale; i++ {
+			d := r.Intn(10)
+			switch mode {
+			case 0:
+				d = 0
+			case 1:
+				d = 9
+			case 2:
+				if i == scale-1 {
+					d = 5
+				}
+			}
+			sb.WriteByte(byte('0' + d))
+		}
+	}
+	return sb.String()
+}
+
+func genOperand(r *lib.RNG) operandSpec {
+	switch r.Intn(20) {
+	case 0: // NULL
+		return operandSpec{Kind: "null"}
+	case 1, 2, 3, 4, 5, 6, 7, 8, 9: // integer column
+		t := &intTypes[r.Intn(len(intTypes))]
+		if r.Chance(1, 3) { // favour the 64-bit types where overflow lives
+			t = &intTypes[8+r.Intn(2)]
+		}
+		return operandSpec{Kind: "col", Type: t.Name, Text: genIntValue(r, t).String()}
+	case 10, 11: // decimal column
+		dt := lib.Pick(r, decTypes)
+		return operandSpec{Kind: "col", Type: fmt.Sprintf("decimal(%d,%d)", dt[0], dt[1]), Text: randDecText(r, dt[0]-dt[1], dt[1])}
+	case 12, 13, 14: // integer literal (any magnitude; beyond uint64 it is a decimal literal)
+		if r.Chance(1, 8) {
+			return operandSpec{Kind: "lit", Text: randDecText(r, 40, 0)}
+		}
+		return operandSpec{Kind: "lit", Text: lib.Pick(r, boundaries).String()}
+	case 15, 16: // decimal literal
+		return operandSpec{Kind: "lit", Text: randDecText(r, r.Range(0, 20), r.Range(1, 12))}
+	case 17: // CAST to SIGNED / UNSIGNED of an in-range value
+		if r.Bool() {
+			return operandSpec{Kind: "cast", Type: "signed", Text: genIntValue(r, &intTypes[8]).String()}
+		}
+		return operandSpec{Kind: "cast", Type: "unsigned", Text: genIntValue(r, &intTypes[9]).String()}
+	case 18: // CAST to DECIMAL
+		dt := lib.Pick(r, decTypes)
+		return operandSpec{Kind: "cast", Type: fmt.Sprintf("decimal(%d,%d)", dt[0], dt[1]), Text: randDecText(r, dt[0]-dt[1], dt[1])}
+	default: // small integer literal
+		return operandSpec{Kind: "lit", Text: fmt.Sprint(r.Intn(41) - 20)}
+	}
+}
+
+func gen(r *lib.RNG) caseT {
+	c := caseT{Op: ops[r.Intn(len(ops))], L: genOperand(r), R: genOperand(r)}
+	if c.Op == "neg" {
+		c.R = operandSpec{Kind: "null"}
+		if c.L.Kind == "null" && r.Chance(9, 10) {
+			t := &intTypes[r.Intn(len(intTypes))]
+			c.L = operandSpec{Kind: "col", Type: t.Name, Text: genIntValue(r, t).String()}
+		}
+	}
+	if (c.Op == "DIV" || c.Op == "%" || c.Op == "/") && r.Chance(1, 12) { // division by zero of every flavour
+		switch r.Intn(4) {
+		case 0:
+			c.R = operandSpec{Kind: "lit", Text: "0"}
+		case 1:
+			c.R = operandSpec{Kind: "lit", Text: "0.000"}
+		case 2:
+			c.R = operandSpec{Kind: "col", Type: lib.Pick(r, intTypes).Name, Text: "0"}
+		default:
+			c.R = operandSpec{Kind: "col", Type: "decimal(10,2)", Text: "0.00"}
+		}
+	}
+	return c
+}
+
+// ---------- running a case on the engine ----------
+
+var engine *eng.E
+var sess *eng.S
+var tables = map[string]bool{}
+var sigSeen = map[string]int{}
+
+func colSQL(t string) string {
+	if it := intTypeByName(t); it != nil {
+		return it.SQL
+	}
+	return t
+}
+
+func exprOf(o operandSpec, col string) string {
+	switch o.Kind {
+	case "null":
+		return "NULL"
+	case "col":
+		return col
+	case "cast":
+		return fmt.Sprintf("CAST(%s AS %s)", o.Text, o.Type)
+	default:
+		return "(" + o.Text + ")"
+	}
+}
+
+// observed operand / result
+type obs struct {
+	Kind  string // null | int | dec | err | other
+	Ity   *intType
+	GoTy  string // carrier of an integer result: I8 I16 I32 I64 U64
+	Z     *big.Int
+	Scale int64
+}
+
+func (o obs) rat() *big.Rat {
+	r := new(big.Rat).SetInt(o.Z)
+	if o.Kind == "dec" && o.Scale > 0 {
+		r.Quo(r, new(big.Rat).SetInt(new(big.Int).Exp(big.NewInt(10), big.NewInt(o.Scale), nil)))
+	}
+	return r
+}
+
+func zCoq(z *big.Int) string { return lib.CoqZStr(z.String()) }
+
+func (o obs) coqOperand() string {
+	switch o.Kind {
+	case "null":
+		return "ONull"
+	case "int":
+		return fmt.Sprintf("(OInt %s %s)", o.Ity.Coq, zCoq(o.Z))
+	default:
+		return fmt.Sprintf("(ODec %s %d%%Z)", zCoq(o.Z), o.Scale)
+	}
+}
+
+func (o obs) coqResult() string {
+	switch o.Kind {
+	case "null":
+		return "RNull"
+	case "err":
+		return "RErr"
+	case "int":
+		return fmt.Sprintf("(RInt %s %s)", o.GoTy, zCoq(o.Z))
+	default:
+		return fmt.Sprintf("(RDec %s %d%%Z)", zCoq(o.Z), o.Scale)
+	}
+}
+
+func observe(v interface{}) obs {
+	switch x := v.(type) {
+	case nil:
+		return obs{Kind: "null"}
+	case int8:
+		return obs{Kind: "int", GoTy: "I8", Z: big.NewInt(int64(x))}
+	case int16:
+		return obs{Kind: "int", GoTy: "I16", Z: big.NewInt(int64(x))}
+	case int32:
+		return obs{Kind: "int", GoTy: "I32", Z: big.NewInt(int64(x))}
+	case int64:
+		return obs{Kind: "int", GoTy: "I64", Z: big.NewInt(x)}
+	case uint8:
+		return obs{Kind: "int", GoTy: "U8", Z: new(big.Int).SetUint64(uint64(x))}
+	case uint16:
+		return obs{Kind: "int", GoTy: "U16", Z: new(big.Int).SetUint64(uint64(x))}
+	case uint32:
+		return obs{Kind: "int", GoTy: "U32", Z: new(big.Int).SetUint64(uint64(x))}
+	case uint64:
+		return obs{Kind: "int", GoTy: "U64", Z: new(big.Int).SetUint64(x)}
+	case *apd.Decimal:
+		if x == nil {
+			return obs{Kind: "null"}
+		}
+		if x.Form != apd.Finite {
+			return obs{Kind: "other"}
+		}
+		z := new(big.Int).Set(x.Coeff.MathBigInt())
+		if x.Negative {
+			z.Neg(z)
+		}
+		sc := -int64(x.Exponent)
+		if sc < 0 {
+			z.Mul(z, new(big.Int).Exp(big.NewInt(10), big.NewInt(-sc), nil))
+			sc = 0
+		}
+		return obs{Kind: "dec", Z: z, Scale: sc}
+	default:
+		return obs{Kind: "other"}
+	}
+}
+
+var carrierOf = map[string]string{"I8": "I8", "U8": "U8", "I16": "I16", "U16": "U16", "I24": "I32", "U24": "U32", "I32": "I32", "U32": "U32", "I64": "I64", "U64": "U64"}
+
+var goRange = map[string][2]*big.Int{
+	"I8": {bi("-128"), bi("127")}, "I16": {bi("-32768"), bi("32767")}, "I32": {bi("-2147483648"), bi("2147483647")},
+	"I64": {bi("-9223372036854775808"), bi("9223372036854775807")}, "U64": {bi("0"), bi("18446744073709551615")},
+	"U8": {bi("0"), bi("255")}, "U16": {bi("0"), bi("65535")}, "U32": {bi("0"), bi("4294967295")},
+}
+var goName = map[string]string{"I8": "int8", "I16": "int16", "I32": "int32", "I64": "int64", "U64": "uint64", "U8": "uint8", "U16": "uint16", "U32": "uint32"}
+
+// operandClass narrows a failure signature by the operands' shape: the operand type for unary minus; uu / ss / mixed
+// for two integers (by signedness); dec when a decimal is involved.
+func operandClass(op string, l, r obs) string {
+	if op == "neg" {
+		if l.Kind == "int" {
+			return l.Ity.Name
+		}
+		return "dec"
+	}
+	if l.Kind != "int" || r.Kind != "int" {
+		return "dec"
+	}
+	lu, ru := l.Ity.Min.Sign() == 0, r.Ity.Min.Sign() == 0
+	switch {
+	case lu && ru:
+		return "uu"
+	case !lu && !ru:
+		return "ss"
+	}
+	return "mixed"
+}
+
+func truncRat(r *big.Rat) *big.Int { return new(big.Int).Quo(r.Num(), r.Denom()) } // big.Int.Quo truncates toward zero
+
+func run(c *lib.Ctx, cs caseT) {
+	if engine == nil {
+		engine = eng.New("db")
+		sess = engine.Session()
+	}
+	opn := opNames[cs.Op]
+	c.Count("op:" + opn)
+	from := ""
+	if cs.L.Kind == "col" || cs.R.Kind == "col" {
+		lt, rt := "int", "int"
+		lv, rv := "NULL", "NULL"
+		if cs.L.Kind == "col" {
+			lt, lv = colSQL(cs.L.Type), cs.L.Text
+		}
+		if cs.R.Kind == "col" {
+			rt, rv = colSQL(cs.R.Type), cs.R.Text
+		}
+		name := "t_" + strings.NewReplacer(" ", "_", "(", "_", ")", "", ",", "_").Replace(lt+"__"+rt)
+		if !tables[name] {
+			sess.MustExec(fmt.Sprintf("CREATE TABLE %s (a %s, b %s)", name, lt, rt))
+			tables[name] = true
+		}
+		sess.MustExec("DELETE FROM "+name, fmt.Sprintf("INSERT INTO %s VALUES (%s, %s)", name, lv, rv))
+		from = " FROM " + name
+	}
+	le, re := exprOf(cs.L, "a"), exprOf(cs.R, "b")
+	// what the engine evaluates the operands to (value, Go carrier, declared type)
+	pr := sess.Query("SELECT " + le + ", " + re + from)
+	if pr.Err != nil || len(pr.Rows) != 1 {
+		c.Count("skipped:operand-projection-failed")
+		c.CaseNoModel(cs, "")
+		return
+	}
+	lo, ro := observe(pr.Rows[0][0]), observe(pr.Rows[0][1])
+	ldecl := int64(0)
+	okOperand := func(o *obs, i int) bool {
+		switch o.Kind {
+		case "null":
+			return true
+		case "int":
+			o.Ity = intTypeBySQL(pr.Schema[i].Type.String())
+			return o.Ity != nil && carrierOf[o.Ity.Coq] == o.GoTy
+		case "dec":
+			return true
+		}
+		return false
+	}
+	if !okOperand(&lo, 0) || !okOperand(&ro, 1) {
+		c.Count("skipped:operand-not-integer-or-decimal")
+		c.CaseNoModel(cs, "")
+		return
+	}
+	if strings.HasPrefix(pr.Schema[0].Type.String(), "decimal(") {
+		var p, s int64
+		fmt.Sscanf(pr.Schema[0].Type.String(), "decimal(%d,%d)", &p, &s)
+		ldecl = s
+	}
+	var q string
+	if cs.Op == "neg" {
+		q = "SELECT -" + le + from
+	} else {
+		q = "SELECT " + le + " " + cs.Op + " " + re + from
+	}
+	res := sess.Query(q)
+	var out obs
+	switch {
+	case res.Panic != "":
+		id := c.CaseNoModel(cs, "")
+		c.PredChecked()
+		c.PredFail(id, opn+"/panic", fmt.Sprintf("%s panicked: %s", q, res.Panic), cs)
+		return
+	case res.Err != nil:
+		out = obs{Kind: "err"}
+	case len(res.Rows) != 1 || len(res.Rows[0]) != 1:
+		c.Count("skipped:unexpected-row-count")
+		c.CaseNoModel(cs, "")
+		return
+	default:
+		out = observe(res.Rows[0][0])
+	}
+	desc := fmt.Sprintf("%s with a=%s:%s b=%s:%s", q, cs.L.Type, cs.L.Text, cs.R.Type, cs.R.Text)
+	if out.Kind == "other" || (out.Kind == "int" && goRange[out.GoTy][0] == nil) {
+		id := c.CaseNoModel(cs, "")
+		c.PredChecked()
+		c.PredFail(id, opn+"/non-numeric-result", fmt.Sprintf("%s returned %s", desc, eng.Rows(res.Rows)), cs)
+		return
+	}
+	lit := cs.Op == "neg" && cs.L.Kind == "lit"
+	key := ""
+	if lo.Kind != "null" && (ro.Kind != "null" || cs.Op == "neg") {
+		key = cs.Op + "|" + lo.coqOperand() + "|" + ro.coqOperand()
+	}
+	opclass := func(o obs) string {
+		switch o.Kind {
+		case "int":
+			return o.Ity.Name
+		case "dec":
+			return "dec"
+		}
+		return "null"
+	}
+	c.Count("left:" + opclass(lo))
+	c.Count("result:" + out.Kind)
+	term := lib.CoqTuple(opCoq[cs.Op], lib.CoqBool(lit), lib.CoqZ(ldecl), lo.coqOperand(), ro.coqOperand(), out.coqResult())
+	id := c.Case(term, cs, key)
+
+	// ---------- property predicate on the implementation alone (math/big reference) ----------
+	c.PredChecked()
+	fail := func(shape, what string) {
+		rt := "decimal"
+		if out.Kind == "int" {
+			rt = goName[out.GoTy]
+		} else if out.Kind == "null" {
+			rt = "null"
+		} else if out.Kind == "err" {
+			rt = "error"
+		}
+		sig := opn + "/" + operandClass(cs.Op, lo, ro) + "/" + rt + "/" + shape
+		sigSeen[sig]++
+		if sigSeen[sig] <= 5 { // the summary keeps at most 200 failures: a few per signature, every signature
+			c.PredFail(id, sig, desc+": "+what, cs)
+		} else {
+			c.Count("predicate_failure:" + sig)
+		}
+	}
+	anyNull := lo.Kind == "null" || (cs.Op != "neg" && ro.Kind == "null")
+	if anyNull {
+		if out.Kind != "null" && out.Kind != "err" {
+			fail("null-operand-non-null-result", "result "+out.coqResult()+" for a NULL operand")
+		}
+		return
+	}
+	a := lo.rat()
+	var b *big.Rat
+	if cs.Op != "neg" {
+		b = ro.rat()
+	}
+	var exact *big.Rat
+	wantNull := false
+	switch cs.Op {
+	case "+":
+		exact = new(big.Rat).Add(a, b)
+	case "-":
+		exact = new(big.Rat).Sub(a, b)
+	case "*":
+		exact = new(big.Rat).Mul(a, b)
+	case "neg":
+		exact = new(big.Rat).Neg(a)
+	default:
+		if b.Sign() == 0 {
+			wantNull = true
+			break
+		}
+		qr := new(big.Rat).Quo(a, b)
+		switch cs.Op {
+		case "DIV":
+			exact = new(big.Rat).SetInt(truncRat(qr))
+		case "%":
+			t := new(big.Rat).SetInt(truncRat(qr))
+			exact = new(big.Rat).Sub(a, t.Mul(t, b))
+		default:
+			exact = qr
+		}
+	}
+	if wantNull {
+		c.Count("division-by-zero")
+		if out.Kind != "null" {
+			fail("by-zero-not-null", "division by zero must yield NULL, got "+out.coqResult())
+		}
+		return
+	}
+	if out.Kind == "err" {
+		c.Count("result-error:" + eng.ErrKind(res.Err))
+		return // an error is allowed by the property (never a silently different value)
+	}
+	if out.Kind == "null" {
+		fail("unexpected-null", "NULL although the exact result is "+exact.RatString())
+		return
+	}
+	got := out.rat()
+	if cs.Op == "/" {
+		// exact within its precision: the nearest multiple of 10^-scale(result) to the exact quotient, scale >= 4
+		unit := new(big.Rat).SetFrac(big.NewInt(1), new(big.Int).Exp(big.NewInt(10), big.NewInt(out.Scale), nil))
+		diff := new(big.Rat).Sub(got, exact)
+		diff.Abs(diff)
+		diff.Mul(diff, big.NewRat(2, 1))
+		if out.Kind != "dec" || out.Scale < 4 || diff.Cmp(unit) > 0 {
+			shape := "not-nearest"
+			// the exact quotient truncated toward zero at the result's scale (one unit off at most, never rounded)
+			scaled := new(big.Rat).Quo(exact, unit)
+			tr := new(big.Rat).Mul(new(big.Rat).SetInt(truncRat(scaled)), unit)
+			if out.Kind == "dec" && out.Scale >= 4 && got.Cmp(tr) == 0 {
+				shape = "truncated-not-rounded"
+			}
+			fail(shape, fmt.Sprintf("got %s, exact quotient %s", got.FloatString(int(out.Scale)), exact.FloatString(int(out.Scale)+6)))
+		}
+		return
+	}
+	if got.Cmp(exact) == 0 {
+		return
+	}
+	shape := "inexact"
+	if out.Kind == "int" {
+		rg := goRange[out.GoTy]
+		fits := exact.IsInt() && exact.Num().Cmp(rg[0]) >= 0 && exact.Num().Cmp(rg[1]) <= 0
+		clamped := out.GoTy == "I64" && ((lo.Kind == "int" && lo.Z.Cmp(goRange["I64"][1]) > 0) || (ro.Kind == "int" && ro.Z.Cmp(goRange["I64"][1]) > 0))
+		switch {
+		case !fits:
+			shape = "wrap" // the exact value is not representable in the result type and no error was reported
+		case clamped && (cs.Op == "+" || cs.Op == "-" || cs.Op == "*"):
+			shape = "u64-operand-clamped"
+		}
+		c.Count("exact-out-of-result-range")
+	}
+	fail(shape, fmt.Sprintf("got %s, exact %s", got.RatString(), exact.RatString()))
+}
+
+func main() {
+	lib.Main("C25", func(c *lib.Ctx) {
+		c.Header = "From Coq Require Import List NArith ZArith.\nImport ListNotations.\nFrom GMS Require Import Codec.C25Arith Corr.C25.\nOpen Scope N_scope."
+		c.CaseType = "C25.case"
+		c.MismatchFn = "C25.mismatches"
+		c.SetRule("SELECT a op b / SELECT -a with op in + - * DIV % /; operands: columns of all ten integer types " +
+			"(values: type limits, +-2^k+-1 boundaries, small, uniform), DECIMAL columns of seven (p,s) shapes, integer and " +
+			"decimal literals (up to 40 digits), CAST AS SIGNED/UNSIGNED/DECIMAL, NULL; 1/12 of divisions by zero. " +
+			"Non-trivial = both operands non-NULL; distinct = distinct (op, evaluated operands).")
+		if c.ReplayFile != "" {
+			var cs caseT
+			lib.LoadReplay(c.ReplayFile, &cs)
+			run(c, cs)
+			return
+		}
+		col := func(t, v string) operandSpec { return operandSpec{Kind: "col", Type: t, Text: v} }
+		lit := func(v string) operandSpec { return operandSpec{Kind: "lit", Text: v} }
+		null := operandSpec{Kind: "null"}
+		corpus := []caseT{
+			// the observations of DESIGN.md section 0
+			{"+", lit("9223372036854775807"), lit("1")},
+			{"+", lit("18446744073709551615"), lit("1")},
+			{"*", lit("4611686018427387904"), lit("4")},
+			{"-", lit("-9223372036854775808"), lit("1")},
+			{"+", lit("18446744073709551615"), lit("0")},
+			{"-", lit("18446744073709551615"), lit("-1")},
+			{"*", lit("18446744073709551615"), lit("1")},
+			{"+", col("u64", "18446744073709551615"), col("u64", "1")},
+			{"-", col("u8", "0"), col("u16", "1")},
+			{"*", col("u64", "4294967296"), col("u32", "4294967295")},
+			{"*", col("u64", "4294967296"), col("u64", "4294967296")},
+			{"*", col("i64", "3037000500"), col("i64", "3037000500")},
+			{"*", col("u64", "9223372036854775808"), col("i8", "-1")},
+			{"-", col("u64", "13086853034872188844"), col("i64", "9223372036854775807")},
+			{"neg", col("u8", "200"), null}, {"neg", col("u8", "255"), null}, {"neg", col("u8", "127"), null},
+			{"neg", col("u16", "40000"), null}, {"neg", col("u24", "16777215"), null}, {"neg", col("u32", "4294967295"), null},
+			{"neg", col("u64", "18446744073709551615"), null}, {"neg", col("u64", "9223372036854775808"), null},
+			{"neg", col("i64", "-9223372036854775808"), null}, {"neg", lit("-9223372036854775808"), null}, {"neg", lit("200"), null},
+			{"neg", col("i8", "-128"), null}, {"neg", col("decimal(10,2)", "-1.50"), null},
+			{"DIV", col("i64", "-9223372036854775808"), col("i8", "-1")},
+			{"DIV", col("u64", "18446744073709551615"), lit("1")},
+			{"DIV", col("u64", "18446744073709551615"), col("u8", "3")},
+			{"DIV", lit("-7"), lit("2")}, {"DIV", lit("7"), lit("-2")}, {"DIV", lit("1.5"), lit("0.4")}, {"DIV", lit("7"), lit("0")},
+			{"%", lit("-7"), lit("3")}, {"%", lit("7"), lit("-3")}, {"%", lit("7"), lit("0")}, {"%", lit("999"), lit("0.001")},
+			{"%", lit("-1.5"), lit("0.4")}, {"%", col("i64", "-9223372036854775808"), col("i8", "-1")},
+			{"/", lit("7"), lit("0")}, {"/", lit("7"), lit("2")}, {"/", lit("2"), lit("3")}, {"/", lit("-2"), lit("3")},
+			{"/", lit("1.00"), lit("3")}, {"/", col("decimal(20,5)", "123.45600"), lit("7")}, {"/", lit("1"), lit("200001")},
+			{"/", lit("0.00005"), lit("1")}, {"/", lit("1"), lit("0.000000000000003")},
+			{"+", lit("1.5"), lit("2.25")}, {"*", lit("1.5"), lit("2.25")}, {"-", lit("1.50"), lit("1.5")},
+			{"*", lit("99999999999999999999999999999999999999999999999999999999999999999"), lit("99999999999999999999999999999999999999999999999999999999999999999")},
+			{"+", col("decimal(65,30)", "99999999999999999999999999999999999.999999999999999999999999999999"), col("decimal(65,30)", "0.000000000000000000000000000001")},
+			{"+", null, lit("1")}, {"/", lit("1"), null},
+		}
+		for _, cs := range corpus {
+			run(c, cs)
+		}
+		// every boundary pair for the 64-bit types under + - * (the overflow frontier)
+		n := len(corpus)
+		for n < c.N {
+			run(c, gen(c.R.Fork()))
+			n++
+		}
+	})
 }
